@@ -5,6 +5,7 @@ Line protocol for C33 (stateless).
 ```
 fmt x<hex bytes>                       -> the canonical text of those bytes (formatUUID)
 s3 prefix=x<hex> draw=x<hex 16 bytes>|!  -> the S3 object key for that draw (`!` = the entropy read failed: `refused`)
+s3r prefix=x<hex> chunks=<hex>,<hex>,...  -> the S3 key when the entropy source delivered those read results
 gcs prefix=x<hex> uuid=x<hex 16 bytes>|! zstd=<0|1> -> the GCS object key, or `refused`
 ```
 -/
@@ -33,6 +34,14 @@ def step (st : Unit) (ws : List String) : Unit × String :=
   | "s3" :: rest =>
     match (kv rest "prefix") >>= parseHexArg, (kv rest "draw") >>= parseDraw with
     | some p, some d => (st, showKey (s3Upload (charsOf p) d))
+    | _, _ => (st, "bad-op")
+  | "s3r" :: rest =>
+    -- the generator over a chunked entropy source: chunks=<hex>,<hex>,... (the successive read results)
+    match (kv rest "prefix") >>= parseHexArg, kv rest "chunks" with
+    | some p, some cs =>
+      match (cs.splitOn ",").mapM (fun h => parseHexArg ("x" ++ h)) with
+      | some chunks => (st, showKey ((generateUUIDFrom chunks).map (charsOf p ++ ·)))
+      | none => (st, "bad-op")
     | _, _ => (st, "bad-op")
   | "gcs" :: rest =>
     match (kv rest "prefix") >>= parseHexArg, (kv rest "uuid") >>= parseDraw, kv rest "zstd" with
